@@ -31,7 +31,8 @@ PROP = Prop(
 @st.composite
 def _histories(draw):
     length = draw(st.one_of(st.integers(1, 12), st.integers(1, 50)))
-    alpha = draw(st.one_of(st.floats(1e-6, 0.999), st.sampled_from([0.05, 0.01, 0.5, 0.001])))
+    # (any significance in (0, 1) can be configured; below ~1e-16 the complement 1 - alpha is no longer representable)
+    alpha = draw(st.one_of(st.floats(1e-6, 0.999), st.sampled_from([0.05, 0.01, 0.5, 0.001, 1e-9, 1e-13, 1e-17, 1e-20, 1e-30])))
     window = draw(st.integers(1, 10))
     delta = draw(st.one_of(st.floats(0.01, 0.99), st.sampled_from([0.8, 0.5, 0.95])))
     same_dim = draw(st.booleans())
